@@ -244,7 +244,7 @@ func meshHash3(m *model3d.Mesh) string {
 
 // startMesh3 picks how the history begins.
 func startMesh3(src *choice.Source, h *hist3) {
-	kind := src.Intn(12) // (recorded tapes hold reduced values, so the range may grow)
+	kind := src.Intn(13) // (recorded tapes hold reduced values, so the range may grow)
 	switch kind {
 	case 0:
 		h.real = model3d.NewMesh()
@@ -351,7 +351,53 @@ func startMesh3(src *choice.Source, h *hist3) {
 			h.log("MarchingCubesConj(iters=%d)", iters)
 		}
 	}
-	if kind >= 10 {
+	if kind == 12 {
+		// an edge so short that its midpoint rounds onto one of its ends (neighbouring
+		// floats, or 0 and the smallest subnormal), collapsed by EliminateEdges
+		// an octahedron whose equator has one edge a-b of (next to) no length:
+		// opposite pairs (a,x), (b,y), (p,q)
+		perm := [][3]int{{0, 1, 2}, {1, 2, 0}, {2, 0, 1}}[src.Intn(3)]
+		mk := func(x, y, z float64) model3d.Coord3D {
+			v := [3]float64{x, y, z}
+			return model3d.XYZ(v[perm[0]], v[perm[1]], v[perm[2]])
+		}
+		var a, b model3d.Coord3D
+		switch src.Intn(4) {
+		case 0:
+			a, b = mk(1, 0.25, 0), mk(math.Nextafter(1, 2), 0.25, 0)
+		case 1:
+			a, b = mk(1, 0.25, 0), mk(math.Nextafter(1, 0), 0.25, 0)
+		case 2:
+			a, b = mk(1, 0.25, 0), mk(1, 0.25, math.SmallestNonzeroFloat64)
+		default:
+			a, b = mk(1, 0.25, 0), mk(1, math.Nextafter(0.25, 1), -math.SmallestNonzeroFloat64)
+		}
+		x, y, pp, q := mk(-1, 0.5, 0), mk(-1, -0.5, 0), mk(0, 0, 1), mk(0, 0, -1)
+		m := model3d.NewMesh()
+		for _, c1 := range []model3d.Coord3D{a, x} {
+			for _, c2 := range []model3d.Coord3D{b, y} {
+				for _, c3 := range []model3d.Coord3D{pp, q} {
+					m.Add(&model3d.Triangle{c3, c1, c2})
+				}
+			}
+		}
+		if src.Chance(1, 2) {
+			m.VertexSlice()
+		}
+		h.st.MapDep = "EliminateEdges picks segments in the iteration order of a Go map"
+		for attempt := 0; ; attempt++ {
+			h.real = m.EliminateEdges(func(tmp *model3d.Mesh, seg model3d.Segment) bool { return seg[0].Dist(seg[1]) < 1e-9 })
+			h.st.StartHash = meshHash3(h.real)
+			if h.st.WantStart == "" || h.st.StartHash == h.st.WantStart || attempt >= 400 {
+				break
+			}
+		}
+		if h.real.NumTriangles() < m.NumTriangles() {
+			h.st.probe("tiny edge (midpoint == endpoint) collapsed by EliminateEdges")
+		}
+		h.log("EliminateEdges(edge between neighbouring floats)")
+	}
+	if kind >= 10 && kind < 12 {
 		// bystander: a library operation that returns a new mesh is applied to a closed
 		// surface (queried before or not, copied before or not) and its result thrown
 		// away; the source and the earlier copy must not notice - neither their face
